@@ -92,8 +92,8 @@ check('C15', 'model_checking',
       '(plain and load_by_geo), read back by main(), and the two models are compared by projection; the re-written option file must equal '
       'the first; a sampled fraction is solved and the feed impedances compared (3e-4).',
       'Trusted: TLC, the concretiser and projection in harness/c15.py. Geometry transformations, scaling, media forms and numeric values are '
-      'seeded choices of the concretiser, not enumerated by TLC. One recorded defect (load numbering when loads are attached out of kind order) '
-      'is a known finding; TLC produces its counterexample on the variant LoadsInKindOrder = FALSE. Command lines whose ORIGINAL the taper '
+      'seeded choices of the concretiser, not enumerated by TLC. The writer variant the code had before fix 5540ff0 (loads numbered in '
+      'attachment order, LoadsInKindOrder = FALSE) must stay refuted by TLC. Command lines whose ORIGINAL the taper '
       'algorithm cannot build (assertion, recorded under C20) are skipped and counted.',
       'TLC model checking of OptionFile.tla + write/read-back replay through main()', 'DESIGN.md 4 C15')
 
